@@ -5,7 +5,7 @@
    (`c18_moving_full`); what is missing is listed in notes_proof_R2.md. *)
 From BV Require Import Base.Prelude Model.Block Model.ForkDB Model.Forkable Model.ForkableLookups Model.Burst
   Spec.Consumer Spec.Universe Spec.C01_Spec Spec.C01_Moving_Spec Spec.C18_Spec Spec.C18_Moving_Spec
-  Proofs.C18_MovingProofs.
+  Check.Fk_Check Check.Fk_Props_Check Proofs.C18_MovingProofs Proofs.Fk.MovingLibFollow.
 Local Open Scope N_scope.
 
 (* 2. head information = top of the consumer's stack *)
@@ -41,6 +41,17 @@ Print Assumptions c18_moving_full_partial.
 Theorem c18_states_reached : C18_states_reached.
 Proof. exact c18_states_reached_proof. Qed.
 Print Assumptions c18_states_reached.
+
+(* 5. the monitor of the check (c18_prop, all five clauses of C18) accepts every observation that corresponds to the
+   model, on the cases of c18_moving_thm_scope: [C18_full] of Spec/C18_Spec.v for the configured-LIB modes *)
+Theorem c18_moving_lib_partial : C18_moving_lib.
+Proof. exact c18_moving_lib_proof. Qed.
+Print Assumptions c18_moving_lib_partial.
+
+(* ... in particular the model's own run, which corresponds to itself *)
+Theorem c18_moving_own_run : C18_moving_own_run.
+Proof. exact c18_moving_own_run_proof. Qed.
+Print Assumptions c18_moving_own_run.
 
 (* ---- non-vacuity ---- *)
 
@@ -136,3 +147,13 @@ Proof.
   exists evs, s. split; [apply run_to_reaches; exact R|]. vm_compute in R. injection R as <- <-.
   repeat (split; [vm_compute; reflexivity|]). vm_compute; reflexivity.
 Qed.
+
+(* c18_moving_lib / c18_moving_own_run: the history above with every height 0..9 and every id recorded; the
+   inclusive-LIB history with a block under the kept window fed before the LIB block (the case that exposed the false
+   alarm of the monitor's old "moved" flag); a failing handler *)
+Example c18m_thm_scope_cases :
+  c18_moving_thm_scope (model_case c18m_cfg (LExcl c18m_r0) c18m_h [0;1;2;3;4;5;6;7;8;9] [2;3;13;5;6;8]) = true /\
+  c18_moving_thm_scope (model_case (mkCfg 1 true false 0 false (mkFilter true true true true) None) (LIncl (mkR 10 10))
+                          [mkBlock 3 3 2 1; mkBlock 10 10 9 5; mkBlock 11 11 10 10] [1;2;3;9;10;11;12] [3;10;11]) = true /\
+  c18_moving_thm_scope (model_case c18m_cfg_fail (LIncl c18m_r0) c18m_h_incl [0;1;2;3;4;5;6;7] [1;2;3;5;6]) = true.
+Proof. vm_compute. auto. Qed.
